@@ -1786,6 +1786,11 @@ class ExecutionTracer(AbstractExecutionTracer):  # noqa: PLR0904
                 # that the subject does not run, and fails if the class keeps the value
                 # under another name. Only look at what is statically there.
                 attr_value = inspect.getattr_static(obj, attr_name, None)
+            elif opname[opcode] == "IMPORT_FROM":
+                # A name that is missing in the module makes the import fail with an
+                # ImportError (or succeed via `sys.modules` for a submodule), which
+                # is up to the subject; we must not fail with an AttributeError before.
+                attr_value = getattr(obj, attr_name, None)
             else:
                 attr_value = getattr(obj, attr_name)
             arg_address = id(attr_value)
